@@ -517,19 +517,18 @@ func (wg *WeightedAuthorizationModelGraph) calculateNodeWeightWithEnforceTypeStr
 		return fmt.Errorf("%w: %s node does not have any terminal type to reach to", ErrInvalidModel, node.uniqueLabel)
 	}
 
-	for _, edge := range edges {
-		// for but not ensure that the first edge is the left edge
-		// the first time, take the weights of the edge
-		if len(weights) == 0 {
-			for key, value := range edge.weights {
+	for idx, operand := range operandWeights(edges) {
+		// the first operand gives the candidate types
+		if idx == 0 {
+			for key, value := range operand {
 				weights[key] = value
 			}
 			continue
 		}
 
-		// for AndOperation, remove the key if it is not in the edge, not all edges return the same type
+		// for AndOperation, remove the key if it is not in the operand, not all operands return the same type
 		for key := range weights {
-			if value, ok := edge.weights[key]; !ok {
+			if value, ok := operand[key]; !ok {
 				delete(weights, key)
 			} else {
 				weights[key] = int(math.Max(float64(weights[key]), float64(value)))
@@ -541,6 +540,39 @@ func (wg *WeightedAuthorizationModelGraph) calculateNodeWeightWithEnforceTypeStr
 	}
 	node.weights = weights
 	return nil
+}
+
+// operandWeights returns the weights of the operands of an operator node, in the order in which the operands appear.
+// An operand is one edge, except that a type restriction ([a, b]) and a tuple to userset over several parent types
+// (x from y) are drawn with one edge per type: those edges together are one operand, and a type is valid for it when
+// any of them returns it.
+func operandWeights(edges []*WeightedAuthorizationModelEdge) []map[string]int {
+	operands := make([]map[string]int, 0, len(edges))
+	groups := make(map[string]int)
+	for _, edge := range edges {
+		group := ""
+		switch edge.edgeType {
+		case DirectEdge:
+			group = "direct"
+		case TTUEdge:
+			_, relation, _ := strings.Cut(edge.to.uniqueLabel, "#")
+			group = "ttu:" + edge.tuplesetRelation + "#" + relation
+		}
+		idx, ok := groups[group]
+		if group == "" || !ok {
+			operands = append(operands, make(map[string]int))
+			idx = len(operands) - 1
+			if group != "" {
+				groups[group] = idx
+			}
+		}
+		for key, value := range edge.weights {
+			if current, ok := operands[idx][key]; !ok || value > current {
+				operands[idx][key] = value
+			}
+		}
+	}
+	return operands
 }
 
 // This is a comodity function to check if the node is the root of any tuple cycle,
